@@ -18,6 +18,7 @@ import (
 	"encoding/json"
 	"fmt"
 	"math/big"
+	"sort"
 	"strings"
 
 	"github.com/pulumi/esc/ast"
@@ -666,7 +667,13 @@ func (e *validator) validateObject(v *value, accept *schema.Schema, loc validati
 			missing = append(missing, k)
 		}
 	}
-	for k, required := range accept.DependentRequired {
+	dependentKeys := make([]string, 0, len(accept.DependentRequired))
+	for k := range accept.DependentRequired {
+		dependentKeys = append(dependentKeys, k)
+	}
+	sort.Strings(dependentKeys)
+	for _, k := range dependentKeys {
+		required := accept.DependentRequired[k]
 		if _, has := keySet[k]; has {
 			for _, rk := range required {
 				if _, has := keySet[rk]; !has {
